@@ -162,7 +162,16 @@ fn run(ctx: &mut Ctx) {
         let mut f = Features::base();
         f.n_fns = 3 + rng.below(5);
         f.ident_mode = if rng.chance(1, 5) { 1 } else { 0 };
-        let (prog, tags) = generate(&mut rng, f);
+        let (prog, mut tags) = generate(&mut rng, f);
+        // every fourth program has its identifiers (all namespaces) replaced by Go keywords and
+        // predeclared names: the emitted text must stay valid
+        let prog = if i % 4 == 3 {
+            tags.insert("keyword_renamed");
+            let ren = crate::props::c19::keyword_renaming(&prog, &mut rng);
+            ren.program(&prog)
+        } else {
+            prog
+        };
         let label = format!("gen/{}/{}", ctx.shard, i);
         ctx.case(&label.clone(), |c| {
             let o = diff::run_diff(c, &prog, &label, &opts);
